@@ -319,6 +319,8 @@ class Ctx:
         return ok
 
     def stage_lean(self, extra_targets=("driver",)):
+        from lib import gen_driver
+        gen_driver.main()
         targets = [f"OpmVerif.Props.{self.prop}"] + list(extra_targets)
         ok, out, dt = lake_build(targets)
         self.cov["lean_build_s"] = round(dt, 1)
